@@ -98,6 +98,14 @@ impl Reader {
         block_check: BlockCheck,
         in_memory: bool,
     ) -> Result<(Arc<dyn Source>, Region)> {
+        // offset and size often come from the file itself. They must be checked.
+        let end = offset.into_u64().checked_add(size.into_u64());
+        if end.map_or(true, |end| end > self.region.size().into_u64()) {
+            return Err(format_error!(format!(
+                "Out of reader. Cannot cut {size} at {offset} in reader of {}",
+                self.region.size()
+            )));
+        }
         let region = self.region.cut_rel(offset, size);
         Arc::clone(&self.source).cut(region, block_check, in_memory)
     }
